@@ -46,6 +46,74 @@ def qq(x, scale=1.0):
     return int(round(v * ONE))
 
 
+def relations(o, rr, ff, fs, T, has_grid, n_grid):
+    """Fill the observation o with the relations of the property evaluated
+    on the bundle rr at temperature T (n_grid: spacer grids inside the
+    bundle, from the input)."""
+    dassh = common.import_dassh()
+    import dassh.correlations.friction_ctd as fctd
+    import dassh.correlations.friction_uctd as fuctd
+    import dassh.correlations.flowsplit_ctd as fsctd
+    import dassh.correlations.flowsplit_uctd as fsuctd
+    rr._init_static_correlated_params(T)
+    rr._update_coolant_int_params(T)
+    p = rr.coolant_int_params
+    Re = float(p['Re'])
+    o['Re'] = int(Re)
+    # regime by the flow-split family's own bounds (CT family), else by
+    # the CTD bounds (only used to label the observation)
+    fam = fuctd if fs == 'UCTD' else fctd
+    rb = fam.calculate_Re_bounds(rr)
+    o['regime'] = ('laminar' if Re <= rb[0] else
+                   'turbulent' if Re >= rb[1] else 'transition')
+    x = np.asarray(p['fs'], dtype=float)
+    n_sc = np.array([rr.subchannel.n_sc['coolant'][k]
+                     for k in ('interior', 'edge', 'corner')], float)
+    share = n_sc * rr.params['area'] / rr.bundle_params['area']
+    o['x'] = [qq(v, 4.0) for v in x]
+    o['sx'] = [qq(v) for v in share * x]
+    f = np.asarray(p['ff'], dtype=float)
+    o['fpos'] = int(bool(np.all(np.isfinite(f)) and np.all(f > 0)))
+    ed, sw = p['eddy'], p['swirl']
+    o['mixok'] = int(bool(np.isfinite(ed) and ed >= 0
+                          and np.all(np.isfinite(sw)) and np.all(sw >= 0)))
+    if fs in ('CTD', 'UCTD') and np.all(x > 0):
+        cf = fam.calculate_subchannel_friction_factor_const(rr)
+        lam = 7 if fs == 'UCTD' else None
+        de = np.asarray(rr.params['de'])
+        deb = rr.bundle_params['de']
+        Re_i = Re * x * de / deb
+        consts = fsctd.calc_constants(rr) if fs == 'CTD' else \
+            fsuctd.calc_constants(rr)
+        xL, xT = consts['fs']['laminar'], consts['fs']['turbulent']
+        Re_iL = rb[0] * xL * de / deb
+        Re_iT = rb[1] * xT * de / deb
+        y = np.log10(Re_i / Re_iL) / np.log10(Re_iT / Re_iL)
+        y = np.clip(y, 0.0, 1.0)
+        m = fctd._m['turbulent']
+        ffi = fsctd._calc_ffb_tr(cf['laminar'] / Re_i,
+                                 cf['turbulent'] / Re_i ** m, y,
+                                 fsctd._GAMMA, lam)
+        rho = rr.coolant.density
+        vb = p['vel']
+        G = ffi * rho * (x * vb) ** 2 / (2 * de)
+        if has_grid:
+            L = rr.z[1] - rr.z[0]
+            # the number of grids inside the bundle as the input states it
+            K = p['grid_loss_coeff'] * n_grid
+            G = G + K * rho * (x * vb) ** 2 / 2 / L
+        gs = 4 * float(np.max(np.abs(G)))
+        o['G'] = [qq(v, gs) for v in G]
+        if ff == fs:
+            Gb = float(np.ravel(f)[0]) * rho * vb ** 2 / (2 * deb)
+            o['Gb'] = qq(Gb, gs)
+        o['hasG'] = 1
+        # tolerance: exact closed forms in laminar / turbulent flow, the
+        # iteration's own stopping rule (|dx| < 1e-5) otherwise
+        exact = o['regime'] != 'transition' and not has_grid
+        o['gtol'] = 64 if exact else int(1e-4 * ONE)
+
+
 def evaluate(args):
     (n_ring, dims, re_target, ff, fs, mix, gname, label, nominal) = args
     dassh = common.import_dassh()
@@ -76,62 +144,9 @@ def evaluate(args):
             / tmpl.bundle_params['de']
         rr = tmpl.clone(new_flowrate=flow)
         rr.z = [0.0, 1.0]
-        rr._init_static_correlated_params(T)
-        rr._update_coolant_int_params(T)
-        p = rr.coolant_int_params
-        Re = float(p['Re'])
-        o['Re'] = int(Re)
-        # regime by the flow-split family's own bounds (CT family), else by
-        # the CTD bounds (only used to label the observation)
-        fam = fuctd if fs == 'UCTD' else fctd
-        rb = fam.calculate_Re_bounds(rr)
-        o['regime'] = ('laminar' if Re <= rb[0] else
-                       'turbulent' if Re >= rb[1] else 'transition')
-        x = np.asarray(p['fs'], dtype=float)
-        n_sc = np.array([rr.subchannel.n_sc['coolant'][k]
-                         for k in ('interior', 'edge', 'corner')], float)
-        share = n_sc * rr.params['area'] / rr.bundle_params['area']
-        o['x'] = [qq(v, 4.0) for v in x]
-        o['sx'] = [qq(v) for v in share * x]
-        f = np.asarray(p['ff'], dtype=float)
-        o['fpos'] = int(bool(np.all(np.isfinite(f)) and np.all(f > 0)))
-        ed, sw = p['eddy'], p['swirl']
-        o['mixok'] = int(bool(np.isfinite(ed) and ed >= 0
-                              and np.all(np.isfinite(sw)) and np.all(sw >= 0)))
-        if fs in ('CTD', 'UCTD') and np.all(x > 0):
-            cf = fam.calculate_subchannel_friction_factor_const(rr)
-            lam = 7 if fs == 'UCTD' else None
-            de = np.asarray(rr.params['de'])
-            deb = rr.bundle_params['de']
-            Re_i = Re * x * de / deb
-            consts = fsctd.calc_constants(rr) if fs == 'CTD' else \
-                fsuctd.calc_constants(rr)
-            xL, xT = consts['fs']['laminar'], consts['fs']['turbulent']
-            Re_iL = rb[0] * xL * de / deb
-            Re_iT = rb[1] * xT * de / deb
-            y = np.log10(Re_i / Re_iL) / np.log10(Re_iT / Re_iL)
-            y = np.clip(y, 0.0, 1.0)
-            m = fctd._m['turbulent']
-            ffi = fsctd._calc_ffb_tr(cf['laminar'] / Re_i,
-                                     cf['turbulent'] / Re_i ** m, y,
-                                     fsctd._GAMMA, lam)
-            rho = rr.coolant.density
-            vb = p['vel']
-            G = ffi * rho * (x * vb) ** 2 / (2 * de)
-            if GRIDS[gname] is not None:
-                L = rr.z[1] - rr.z[0]
-                K = p['grid_loss_coeff'] * rr.corr_constants['grid']['n']
-                G = G + K * rho * (x * vb) ** 2 / 2 / L
-            gs = 4 * float(np.max(np.abs(G)))
-            o['G'] = [qq(v, gs) for v in G]
-            if ff == fs:
-                Gb = float(np.ravel(f)[0]) * rho * vb ** 2 / (2 * deb)
-                o['Gb'] = qq(Gb, gs)
-            o['hasG'] = 1
-            # tolerance: exact closed forms in laminar / turbulent flow, the
-            # iteration's own stopping rule (|dx| < 1e-5) otherwise
-            exact = o['regime'] != 'transition' and GRIDS[gname] is None
-            o['gtol'] = 64 if exact else int(1e-4 * ONE)
+        relations(o, rr, ff, fs, T, GRIDS[gname] is not None,
+                  len(GRIDS[gname]['axial_positions'])
+                  if GRIDS[gname] is not None else 0)
     except BaseException as e:
         import traceback
         o['outcome'] = type(e).__name__
@@ -139,6 +154,60 @@ def evaluate(args):
         o['where'] = [ln.strip() for ln in traceback.format_exc().splitlines()
                       if ln.strip().startswith('File')][-2:]
     return o
+
+
+def evaluate_reactor(args):
+    """The same relations on the pin bundle of an assembly built by the
+    Reactor from an input file (reader, template, clone): the spacer grids
+    that count are those the input places inside the bundle."""
+    label, case = args
+    from harness import cases
+    dassh = common.import_dassh()
+    t = case['types']['a1']
+    ff, fs, mix = t['corr_friction'], t['corr_flowsplit'], t['corr_mixing']
+    sg = t.get('SpacerGrid')
+    gname = 'none' if not sg else (sg.get('corr') or 'loss_coeff')
+    o = {'ff': ff, 'fs': fs, 'mix': mix, 'grid': gname, 'label': label,
+         'x': [0, 0, 0], 'sx': [0, 0, 0], 'G': [0, 0, 0], 'Gb': 0,
+         'hasG': 0, 'fpos': 0, 'mixok': 0, 'tol': 8, 'gtol': 8,
+         'regime': 'reactor', 'outcome': 'ok', 'Re': 0}
+    d = common.workdir('c12-' + label)
+    try:
+        inp, r = cases.build(dassh, case, str(d))
+        rr = r.assemblies[0].rodded
+        zlo, zhi = t.get('_rods', [0.0, case['L']])
+        n_in = sum(1 for z in (sg or {}).get('axial_positions', [])
+                   if zlo < z <= zhi)
+        relations(o, rr, ff, fs, 700.0, n_in > 0, n_in)
+    except BaseException as e:
+        o['outcome'] = type(e).__name__
+        o['msg'] = str(e)[:120]
+    finally:
+        common.cleanup(d)
+    return o
+
+
+def reactor_cases(rng):
+    """Bundles with un-rodded regions above and below whose spacer-grid
+    lists also name heights outside the bundle."""
+    from harness.scenarios import bundle_type, add_regions, make_core, flow_for
+    out = []
+    for fam, grid, pos in (
+            ('CTD', {'loss_coeff': 1.5}, [0.2, 0.3, 0.52]),
+            ('UCTD', {'corr': 'REH', 'solidity': 0.25}, [0.05, 0.25, 0.4]),
+            ('CTD', {'corr': 'CDD'}, [0.3, 0.58, 0.02]),
+            ('CTD', {'loss_coeff': 0.9}, [0.2, 0.35])):
+        t = add_regions(bundle_type(
+            3, corr_friction=fam, corr_flowsplit=fam, corr_mixing=fam,
+            SpacerGrid=dict(grid, axial_positions=pos)), 0.6,
+            lower=dict(model='simple', vf_coolant=0.3),
+            upper=dict(model='simple', vf_coolant=0.4), rods=[0.15, 0.45])
+        c = make_core(rng, {'a1': t}, [(1, 1, 'a1')], [flow_for(t)],
+                      gap_model='none')
+        gl = grid.get('corr') or 'loss_coeff'
+        out.append((f'reactor;ff:{fam},fs:{fam},mix:{fam};grid={gl};'
+                    f'listed={len(pos)}', c))
+    return out
 
 
 def cases_for(rng, tier):
@@ -187,6 +256,7 @@ def run(tier, res, replay=None):
     jobs = cases_for(rng, tier)
     with ProcessPoolExecutor(max_workers=common.NCPU) as ex:
         obs = list(ex.map(evaluate, jobs, chunksize=16))
+        obs += list(ex.map(evaluate_reactor, reactor_cases(rng)))
     traces = [{'cfg': {}, 'ev': [o]} for o in obs]
     n = common.NCPU
     shards = [list(range(i, len(traces), n)) for i in range(n)]
